@@ -75,6 +75,14 @@ def mark_font(draw):
     cat = draw(st.sampled_from(["none", "none", "full", "full", "partial"]))
     if cat == "full":
         spec["lib"]["public.openTypeCategories"] = dict(roles)
+        withanch = [g for g in spec["glyphs"] if roles[g["name"]] == "base" and g["anchors"]]
+        if withanch and draw(st.integers(0, 3)) == 0:
+            # a glyph categorised as base that also kept a mark-side anchor (a spacing accent): it stays a base, its '_' anchor is inert
+            g = draw(st.sampled_from(withanch))
+            k = draw(st.sampled_from(KEYS[:3]))
+            if not any(a["name"] == "_" + k for a in g["anchors"]):
+                g["anchors"].append({"name": "_" + k, "x": draw(coord), "y": draw(coord)})
+                spec["base_with_mark_anchor"] = g["name"]
     elif cat == "partial":
         spec["lib"]["public.openTypeCategories"] = {n: r for n, r in roles.items() if draw(st.sampled_from([True, True, True, False]))}
     fea = ""
